@@ -267,7 +267,7 @@ Proof.
   rewrite Epad.
   replace (blen (((buf ++ le_bytes 2 (wrap_u16 pid) ++ [0; 0]) ++ V) ++ zeros ((- blen V) mod 4)) - (blen buf + 4))
     with (blen (padv V)).
-  2:{ unfold padv. rewrite !blen_app, blen_le_bytes. cbn [blen length]. lia. }
+  2:{ unfold padv. rewrite !blen_app, blen_le_bytes. change (blen [0; 0]) with 2. change (Z.of_nat 2) with 2. lia. }
   unfold patch2.
   replace (blen buf + 4 - 2) with (blen (buf ++ le_bytes 2 (wrap_u16 pid))) by (rewrite blen_app, blen_le_bytes; lia).
   replace (((buf ++ le_bytes 2 (wrap_u16 pid) ++ [0; 0]) ++ V) ++ zeros ((- blen V) mod 4))
@@ -309,7 +309,158 @@ Proof.
   rewrite (shorter_app_false v rest (blen v) eq_refl). cbn [orb].
   rewrite take_app_exact, drop_app_exact. reflexivity.
 Qed.
-Lemma pl_next_sentinel : forall be junk, pl_next be ([1; 0; 0; 0] ++ junk) = PEnd.
-Proof. intros [|] junk; reflexivity. Qed.
+Lemma pl_next_sentinel : forall junk, pl_next false ([1; 0; 0; 0] ++ junk) = PEnd.
+Proof. intros junk; reflexivity. Qed.
 Lemma pl_header_is_param : PL_HEADER = param_bytes 768 [].
 Proof. reflexivity. Qed.
+
+(* ------------------------------------------------------------------ fuel is irrelevant *)
+Lemma length_skipn_le : forall {A} n (l : list A), (length (skipn n l) <= length l)%nat.
+Proof. intros. rewrite skipn_length. lia. Qed.
+Lemma pl_next_shorter : forall be d p v rest,
+  pl_next be d = PItem p v rest -> (length rest + 4 <= length d)%nat.
+Proof.
+  intros be d p v rest H. unfold pl_next in H.
+  destruct d as [|b0 [|b1 [|b2 [|b3 r0]]]]; try discriminate.
+  destruct ((wrap_i16 (int_val be [b0; b1]) =? 1) || shorter r0 (int_val be [b2; b3])); [discriminate|].
+  inversion H; subst. unfold drop. pose proof (length_skipn_le (Z.to_nat (int_val be [b2; b3])) r0).
+  cbn [length]. lia.
+Qed.
+Lemma pl_seek_f_fuel : forall f1 f2 be pid d,
+  (length d < f1)%nat -> (length d < f2)%nat -> pl_seek_f f1 be pid d = pl_seek_f f2 be pid d.
+Proof.
+  induction f1 as [|f1 IH]; intros f2 be pid d H1 H2; [lia|].
+  destruct f2 as [|f2]; [lia|]. cbn [pl_seek_f].
+  destruct (pl_next be d) as [| |p v rest] eqn:E; try reflexivity.
+  destruct (p =? pid); [reflexivity|].
+  pose proof (pl_next_shorter _ _ _ _ _ E). apply IH; lia.
+Qed.
+Lemma pl_all_f_fuel : forall {A} f1 f2 be pid (dec : bytes -> res A) d,
+  (length d < f1)%nat -> (length d < f2)%nat -> pl_all_f f1 be pid dec d = pl_all_f f2 be pid dec d.
+Proof.
+  intros A. induction f1 as [|f1 IH]; intros f2 be pid dec d H1 H2; [lia|].
+  destruct f2 as [|f2]; [lia|]. cbn [pl_all_f].
+  destruct (pl_next be d) as [| |p v rest] eqn:E; try reflexivity.
+  pose proof (pl_next_shorter _ _ _ _ _ E).
+  rewrite (IH f2 be pid dec rest) by lia. reflexivity.
+Qed.
+
+Lemma pl_seek_step : forall be pid d,
+  pl_seek be pid d = match pl_next be d with
+                     | PEnd => Ok None
+                     | PErr e => Err e
+                     | PItem p v rest => if p =? pid then Ok (Some v) else pl_seek be pid rest
+                     end.
+Proof.
+  intros. unfold pl_seek. cbn [pl_seek_f].
+  destruct (pl_next be d) as [| |p v rest] eqn:E; try reflexivity.
+  destruct (p =? pid); [reflexivity|].
+  pose proof (pl_next_shorter _ _ _ _ _ E). apply pl_seek_f_fuel; lia.
+Qed.
+Lemma pl_all_step : forall {A} be pid (dec : bytes -> res A) d,
+  pl_all be pid dec d = match pl_next be d with
+                        | PEnd => Ok []
+                        | PErr e => Err e
+                        | PItem p v rest =>
+                            if p =? pid then a <- dec v ;; l <- pl_all be pid dec rest ;; Ok (a :: l)
+                            else pl_all be pid dec rest
+                        end.
+Proof.
+  intros. unfold pl_all. cbn [pl_all_f].
+  destruct (pl_next be d) as [| |p v rest] eqn:E; try reflexivity.
+  pose proof (pl_next_shorter _ _ _ _ _ E).
+  rewrite (pl_all_f_fuel (length d) (S (length rest)) be pid dec rest) by lia. reflexivity.
+Qed.
+
+(* ------------------------------------------------------------------ iterating over well-formed parameters *)
+Definition item_ok (it : Z * bytes) : Prop := pid_ok (fst it) /\ blen (snd it) <= 65535.
+Fixpoint params_bytes (items : list (Z * bytes)) : bytes :=
+  match items with [] => [] | it :: t => param_bytes (fst it) (snd it) ++ params_bytes t end.
+(* the values found under pid, in list order *)
+Fixpoint matches (pid : Z) (items : list (Z * bytes)) : list bytes :=
+  match items with
+  | [] => []
+  | it :: t => if fst it =? pid then snd it :: matches pid t else matches pid t
+  end.
+Fixpoint mapM {A B} (f : A -> res B) (l : list A) : res (list B) :=
+  match l with [] => Ok [] | a :: t => b <- f a ;; r <- mapM f t ;; Ok (b :: r) end.
+
+Lemma params_bytes_app : forall a b, params_bytes (a ++ b) = params_bytes a ++ params_bytes b.
+Proof. induction a as [|it a IH]; intros; cbn [params_bytes app]; [reflexivity|]. rewrite IH, app_assoc. reflexivity. Qed.
+Lemma matches_app : forall pid a b, matches pid (a ++ b) = matches pid a ++ matches pid b.
+Proof.
+  induction a as [|it a IH]; intros; cbn [matches app]; [reflexivity|].
+  destruct (fst it =? pid); rewrite IH; reflexivity.
+Qed.
+
+Lemma pl_seek_items : forall pid items tail, Forall item_ok items ->
+  pl_seek false pid (params_bytes items ++ tail)
+  = match matches pid items with v :: _ => Ok (Some v) | [] => pl_seek false pid tail end.
+Proof.
+  intros pid items tail H. induction H as [|it items [Hp Hl] _ IH]; cbn [params_bytes matches app].
+  - reflexivity.
+  - rewrite pl_seek_step, <- app_assoc, (pl_next_param _ _ _ Hp Hl).
+    destruct (fst it =? pid); [reflexivity|]. exact IH.
+Qed.
+Lemma pl_all_items : forall {A} pid (dec : bytes -> res A) items tail, Forall item_ok items ->
+  pl_all false pid dec (params_bytes items ++ tail)
+  = (x <- mapM dec (matches pid items) ;; y <- pl_all false pid dec tail ;; Ok (x ++ y)).
+Proof.
+  intros A pid dec items tail H. induction H as [|it items [Hp Hl] _ IH]; cbn [params_bytes matches app].
+  - cbn [mapM bind]. destruct (pl_all false pid dec tail); reflexivity.
+  - rewrite pl_all_step, <- app_assoc, (pl_next_param _ _ _ Hp Hl).
+    destruct (fst it =? pid); [|exact IH].
+    cbn [mapM]. rewrite IH. destruct (dec (snd it)); cbn [bind]; try reflexivity.
+    destruct (mapM dec (matches pid items)); cbn [bind]; try reflexivity.
+    destruct (pl_all false pid dec tail); reflexivity.
+Qed.
+Lemma pl_seek_sentinel : forall pid junk, pl_seek false pid ([1; 0; 0; 0] ++ junk) = Ok None.
+Proof. intros. rewrite pl_seek_step, pl_next_sentinel. reflexivity. Qed.
+Lemma pl_all_sentinel : forall {A} pid (dec : bytes -> res A) junk, pl_all false pid dec ([1; 0; 0; 0] ++ junk) = Ok [].
+Proof. intros. rewrite pl_all_step, pl_next_sentinel. reflexivity. Qed.
+
+(* ------------------------------------------------------------------ into_bytes as a list of parameters *)
+Definition periodic (w : wr) : Prop := forall pos, pos mod 4 = 0 -> w pos = w 0.
+Definition items_of {R} (wt : list (wrow R)) (r : R) : list (Z * bytes) :=
+  flat_map (fun row => map (fun v : wr => (w_pid row, padv (v 0))) (w_emit row r)) wt.
+
+Lemma write_vals_eq : forall pid (vs : list wr) buf,
+  (forall v, In v vs -> periodic v) -> blen buf mod 4 = 0 ->
+  fold_left (fun b' v => write_cdr_parameter b' pid v) vs buf
+    = buf ++ params_bytes (map (fun v : wr => (pid, padv (v 0))) vs)
+  /\ blen (fold_left (fun b' v => write_cdr_parameter b' pid v) vs buf) mod 4 = 0.
+Proof.
+  intros pid vs. induction vs as [|v vs IH]; intros buf Hp Hb; cbn [fold_left map params_bytes].
+  - rewrite app_nil_r. split; [reflexivity|assumption].
+  - destruct (IH (write_cdr_parameter buf pid v)) as [E A].
+    + intros; apply Hp; right; assumption.
+    + apply write_cdr_parameter_aligned; assumption.
+    + split; [|exact A]. rewrite E, write_cdr_parameter_eq by assumption.
+      cbn [fst snd]. rewrite (Hp v (or_introl eq_refl) (blen buf + 4)) by lia.
+      rewrite <- app_assoc. reflexivity.
+Qed.
+Lemma write_rows_eq : forall {R} (wt : list (wrow R)) (r : R) buf,
+  (forall row v, In row wt -> In v (w_emit row r) -> periodic v) -> blen buf mod 4 = 0 ->
+  write_rows wt r buf = buf ++ params_bytes (items_of wt r) /\ blen (write_rows wt r buf) mod 4 = 0.
+Proof.
+  intros R wt r. unfold write_rows, items_of.
+  induction wt as [|row wt IH]; intros buf Hp Hb; cbn [fold_left flat_map params_bytes].
+  - rewrite app_nil_r. split; [reflexivity|assumption].
+  - destruct (write_vals_eq (w_pid row) (w_emit row r) buf) as [E A];
+      [intros; apply (Hp row); [left; reflexivity|assumption]|assumption|].
+    destruct (IH (fold_left (fun b' v => write_cdr_parameter b' (w_pid row) v) (w_emit row r) buf)) as [E' A'];
+      [intros row' v' Hr Hv; apply (Hp row'); [right; assumption|assumption]|exact A|].
+    split; [|exact A']. rewrite E', E, params_bytes_app, <- app_assoc. reflexivity.
+Qed.
+
+Lemma tbl_into_bytes_eq : forall {R} (wt : list (wrow R)) (r : R),
+  (forall row v, In row wt -> In v (w_emit row r) -> periodic v) ->
+  tbl_into_bytes wt r = params_bytes ((768, []) :: items_of wt r) ++ [1; 0; 0; 0].
+Proof.
+  intros R wt r Hp. unfold tbl_into_bytes, write_sentinel.
+  destruct (write_rows_eq wt r PL_HEADER Hp eq_refl) as [E A].
+  assert (S : (w_u16 1 +++ w_u16 0) (blen (write_rows wt r PL_HEADER)) = [1; 0; 0; 0]).
+  { unfold wseq. rewrite (w_u16_aligned 1) by lia. rewrite w_u16_aligned; [reflexivity|].
+    change (blen (le_bytes 2 1)) with 2. lia. }
+  rewrite S, E. cbn [params_bytes fst snd]. rewrite <- pl_header_is_param. reflexivity.
+Qed.
